@@ -13,7 +13,26 @@ open UgoVerif UgoVerif.Go UgoVerif.Ast
 /-- a CONSTLIT symbol is constant and carries its literal value -/
 def SymOK (y : Symbol) : Prop := y.scope = .constLit → (y.constant = true ∧ y.constLit.isSome = true)
 def StoreOK (st : List (String × Symbol)) : Prop := ∀ p ∈ st, SymOK p.2
-def TablesOK (ts : List Table) : Prop := ∀ t ∈ ts, StoreOK t.store
+/-- a table: its symbols are fine and its parameters are among its definitions
+    (`NumParams ≤ NumLocals` of the function compiled from it) -/
+structure TableOK (t : Table) : Prop where
+  store : StoreOK t.store
+  params : t.numParams ≤ t.maxDefinition
+
+def TablesOK (ts : List Table) : Prop := ∀ t ∈ ts, TableOK t
+
+/-- a table changed in its store (and possibly raised in `maxDefinition`, other counters) -/
+theorem TableOK.of_store {t t' : Table} (h : TableOK t) (hs : StoreOK t'.store) (hp : t'.numParams = t.numParams)
+    (hm : t.maxDefinition ≤ t'.maxDefinition) : TableOK t' :=
+  ⟨hs, by rw [hp]; exact Nat.le_trans h.params hm⟩
+
+@[simp] theorem shadowBuiltin_numParams (bs : List (String × Nat)) (n : String) (t : Table) :
+    (shadowBuiltin bs n t).numParams = t.numParams := by
+  unfold shadowBuiltin; split <;> rfl
+
+@[simp] theorem shadowBuiltin_maxDefinition (bs : List (String × Nat)) (n : String) (t : Table) :
+    (shadowBuiltin bs n t).maxDefinition = t.maxDefinition := by
+  unfold shadowBuiltin; split <;> rfl
 
 theorem lookupSym_ok {n : String} {y : Symbol} : ∀ {st : List (String × Symbol)}, StoreOK st → lookupSym n st = some y → SymOK y
   | [], _, h => by simp [lookupSym] at h
@@ -52,10 +71,12 @@ theorem updateMaxDefs_length (n : Nat) : ∀ ts : List Table, (updateMaxDefs n t
 theorem updateMaxDefs_ok (n : Nat) : ∀ {ts : List Table}, TablesOK ts → TablesOK (updateMaxDefs n ts)
   | [], _ => by intro t ht; simp [updateMaxDefs] at ht
   | t :: r, h => by
-    have ht : StoreOK t.store := h t (by simp)
+    have ht : TableOK t := h t (by simp)
     have hr : TablesOK r := fun t' ht' => h t' (by simp [ht'])
-    have h1 : StoreOK (if n > t.maxDefinition then { t with maxDefinition := n } else t).store := by
-      split <;> exact ht
+    have h1 : TableOK (if n > t.maxDefinition then { t with maxDefinition := n } else t) := by
+      split
+      · exact ht.of_store ht.store rfl (by simp only; omega)
+      · exact ht
     simp only [updateMaxDefs]
     split
     · intro t' ht'
@@ -75,7 +96,8 @@ theorem resolveIn_spec (bs : List (String × Nat)) (d : List String) (n : String
       ∀ y, (resolveIn bs d n ts).1 = some y → SymOK y
   | [], _ => by simp [resolveIn, TablesOK]
   | t :: rest, h => by
-    have ht : StoreOK t.store := h t (by simp)
+    have htt : TableOK t := h t (by simp)
+    have ht : StoreOK t.store := htt.store
     have hr : TablesOK rest := fun t' ht' => h t' (by simp [ht'])
     unfold resolveIn
     split
@@ -91,7 +113,7 @@ theorem resolveIn_spec (bs : List (String × Nat)) (d : List String) (n : String
             · intro t' ht'
               simp at ht'
               subst ht'
-              exact putSym_ok (by intro hc; simp at hc) ht
+              exact htt.of_store (putSym_ok (by intro hc; simp at hc) ht) rfl (Nat.le_refl _)
             · intro y hy; injection hy with hy; subst hy; intro hc; simp at hc
           · exact ⟨h, rfl, fun y hy => by simp at hy⟩
         · exact ⟨h, rfl, fun y hy => by simp at hy⟩
@@ -109,7 +131,7 @@ theorem resolveIn_spec (bs : List (String × Nat)) (d : List String) (n : String
             intro t' ht'
             simp at ht'
             rcases ht' with ht' | ht'
-            · subst ht'; exact ht
+            · subst ht'; exact htt
             · exact ih1 t' ht'
           | some sym =>
             simp only
@@ -119,15 +141,15 @@ theorem resolveIn_spec (bs : List (String × Nat)) (d : List String) (n : String
                 simp at ht'
                 rcases ht' with ht' | ht'
                 · subst ht'
-                  simp only [shadowBuiltin_store]
-                  exact putSym_ok (by intro hc; simp at hc) ht
+                  exact htt.of_store (by simp only [shadowBuiltin_store]; exact putSym_ok (by intro hc; simp at hc) ht)
+                    (by simp) (by simp)
                 · exact ih1 t' ht'
               · intro y hy; injection hy with hy; subst hy; intro hc; simp at hc
             · refine ⟨?_, by simp [ih2], fun y hy => by injection hy with hy; subst hy; exact ih3 _ rfl⟩
               intro t' ht'
               simp at ht'
               rcases ht' with ht' | ht'
-              · subst ht'; exact ht
+              · subst ht'; exact htt
               · exact ih1 t' ht'
 
 theorem findByNameAll_ok {n : String} {y : Symbol} : ∀ {ts : List Table}, TablesOK ts → findByNameAll n ts = some y → SymOK y
@@ -137,7 +159,7 @@ theorem findByNameAll_ok {n : String} {y : Symbol} : ∀ {ts : List Table}, Tabl
     split at h
     · rename_i s hl
       injection h with h; subst h
-      exact lookupSym_ok (hs t (by simp)) hl
+      exact lookupSym_ok (hs t (by simp)).store hl
     · exact findByNameAll_ok (fun t' ht' => hs t' (by simp [ht'])) h
 
 /-! ### the invariant and the step relation -/
@@ -156,8 +178,14 @@ def FinStream (nc : Nat) (a : Array UInt8) : Prop := StreamOK nc a ∧ JumpsStri
 theorem FinStream.mono {nc nc' : Nat} {a : Array UInt8} (h : FinStream nc a) (hn : nc ≤ nc') : FinStream nc' a :=
   ⟨h.1.mono hn, h.2⟩
 
+/-- a finished function: its stream is fine and its parameters are among its locals -/
+def FinFn (nc : Nat) (f : CFn) : Prop := FinStream nc f.insts ∧ f.numParams ≤ f.numLocals
+
+theorem FinFn.mono {nc nc' : Nat} {f : CFn} (h : FinFn nc f) (hn : nc ≤ nc') : FinFn nc' f :=
+  ⟨h.1.mono hn, h.2⟩
+
 /-- a compiled function in the constant pool: its locals fit the frame, its stream is fine -/
-def FnOK (nc : Nat) (f : CFn) : Prop := f.numLocals ≤ 256 ∧ FinStream nc f.insts
+def FnOK (nc : Nat) (f : CFn) : Prop := f.numLocals ≤ 256 ∧ FinFn nc f
 def ConstsOK (cs : Array Const) : Prop := ∀ c ∈ cs.toList, ∀ f, c = .fn f → FnOK cs.size f
 
 theorem ConstsOK.push {cs : Array Const} (h : ConstsOK cs) {c : Const} (hc : ∀ f, c = .fn f → FnOK (cs.size + 1) f) :
@@ -294,7 +322,9 @@ theorem good_modTables {g : List Table → List Table} (hlen : ∀ ts, (g ts).le
   rw [h] at this
   exact hs.ne (List.eq_nil_of_length_eq_zero this.symm)
 
-theorem good_modHead {f : Table → Table} (hok : ∀ t, StoreOK t.store → StoreOK (f t).store) : Good (modHead f) := by
+theorem good_modHead {f : Table → Table} (hok : ∀ t, StoreOK t.store → StoreOK (f t).store)
+    (hp : ∀ t, (f t).numParams = t.numParams := by intro t; simp)
+    (hm : ∀ t, t.maxDefinition ≤ (f t).maxDefinition := by intro t; simp) : Good (modHead f) := by
   unfold modHead
   apply good_modTables
   · intro ts; cases ts <;> simp
@@ -305,7 +335,7 @@ theorem good_modHead {f : Table → Table} (hok : ∀ t, StoreOK t.store → Sto
       intro t' ht'
       simp at ht'
       rcases ht' with ht' | ht'
-      · subst ht'; exact hok t (h t (by simp))
+      · subst ht'; exact (h t (by simp)).of_store (hok t (h t (by simp)).store) (hp t) (hm t)
       · exact h t' (by simp [ht'])
 
 theorem good_updateMaxDefs (n : Nat) : Good (modTables (updateMaxDefs n)) :=
@@ -323,12 +353,14 @@ theorem good_modify_misc {f : CState → CState} (h1 : ∀ s, (f s).tables = s.t
 theorem good_updateSym {name : String} {f : Symbol → Symbol}
     (hf : ∀ y, SymOK y → SymOK (f y)) : Good (updateSym name f) := by
   unfold updateSym
-  apply good_modHead
-  intro t ht
-  split
-  · rename_i sym hl
-    exact putSym_ok (hf _ (lookupSym_ok ht hl)) ht
-  · exact ht
+  refine good_modHead ?_ ?_ ?_
+  · intro t ht
+    split
+    · rename_i sym hl
+      exact putSym_ok (hf _ (lookupSym_ok ht hl)) ht
+    · exact ht
+  · intro t; split <;> rfl
+  · intro t; split <;> exact Nat.le_refl _
 
 theorem good_addConstant (k : CVal) : Good (addConstant k) := by
   intro s hs
